@@ -56,6 +56,41 @@ def canon_guard(c, v):
     return ('cond', c, v)
 
 
+def effective_guards(prog, f, bb, depth=0):
+    """canonical guards known at bb: the function's own dominating edge conditions plus, for every in-crate callee called on the way
+    (its call block dominates bb) that returns normally only under some conditions (a validation helper that panics otherwise),
+    those conditions translated into the caller's frame"""
+    own = [canon_guard(c, v) for c, v in f.guards().get(bb, [])]
+    if depth >= 2:
+        return own
+    out = list(own)
+    for c in f.calls():
+        if not c.path or c.path not in prog.pdb.bodies or c.bb == bb or not f.cfg.dominates(c.bb, bb):
+            continue
+        if c.path == f.body.key:
+            continue
+        g = prog.func(c.path)
+        if g is None or not g.cfg.returns or g.body.local_ty(0) != '()':
+            continue          # only validation helpers (unit result); constructors of embedded objects have their own rules
+        # does the callee have a way out other than returning (a panic)?  then its return blocks' guards are preconditions of continuing
+        sets = []
+        for r in g.cfg.returns:
+            sets.append(effective_guards(prog, g, r, depth + 1))
+        if not sets:
+            continue
+        common = [x for x in sets[0] if all(x in s_ for s_ in sets[1:])]
+        if not common:
+            continue
+        mapping = {('arg', i + 1, g.names.get(i + 1)): a for i, a in enumerate(c.args)}
+        for gd in common:
+            if gd[0] == 'cmp':
+                a_, b_ = subst(gd[2], mapping), subst(gd[3], mapping)
+                out.append(canon_guard(('bin', gd[1], a_, b_, gd[5]), gd[4]))
+            elif gd[0] == 'cond':
+                out.append(canon_guard(subst(gd[1], mapping), gd[2]))
+    return out
+
+
 def show_guard(g):
     if g[0] == 'cmp':
         sym = {'Lt': '<', 'Le': '<=', 'Eq': '==', 'Ne': '!='}[g[1]]
@@ -106,7 +141,7 @@ class StructModel:
             self.undecided.append('struct literal block not found')
             return
         self.new_bb = bb
-        self.new_guards = [canon_guard(c, v) for c, v in f.guards().get(bb, [])]
+        self.new_guards = effective_guards(self.prog, f, bb)
 
     def _find_setters(self):
         out = []
@@ -126,7 +161,7 @@ class StructModel:
         return out
 
     def guards_at(self, f, bb):
-        return [canon_guard(c, v) for c, v in f.guards().get(bb, [])]
+        return effective_guards(self.prog, f, bb)
 
     def new_arg(self, i):
         return ('arg', i, self.new.names.get(i))
